@@ -474,6 +474,33 @@ impl TableTablets {
     }
 }
 
+/// Verification hook: read-only view of the tablet list of a table.
+#[cfg(scylla_verif)]
+impl TableTablets {
+    /// (first token, last token, all replicas, per-DC replicas) of every tablet, in list order.
+    #[allow(clippy::type_complexity)]
+    pub(crate) fn verif_ranges(
+        &self,
+    ) -> Vec<(
+        i64,
+        i64,
+        Vec<(Arc<Node>, Shard)>,
+        HashMap<String, Vec<(Arc<Node>, Shard)>>,
+    )> {
+        self.tablet_list
+            .iter()
+            .map(|t| {
+                (
+                    t.first_token.value(),
+                    t.last_token.value(),
+                    t.replicas.all.clone(),
+                    t.replicas.per_dc.clone(),
+                )
+            })
+            .collect()
+    }
+}
+
 /// Needed to query hashbrown::HashMap<TableSpec<'static>, TableTablets>
 /// with `TableSpec` of any lifetime.
 #[derive(Hash)]
